@@ -46,6 +46,9 @@ def schemas(tier):
     out.append(("dispatch", [("A", PAYLOADS[3][1], 2047, "x"), ("B", PAYLOADS[6][1], 2047, "xy"), ("C", PAYLOADS[1][1], 0, "x")]))
     out.append(("single", [("Only", PAYLOADS[6][1], 100, "can1")]))
     out.append(("single", [("O", PAYLOADS[2][1], 0, "z")]))
+    # bindings of ANOTHER protocol that carry an id and a bus too: they are no CAN bindings, whatever they are declared next to
+    out.append(("other-protocol", [("Speed", PAYLOADS[1][1], 16, "b1"), ("Door", PAYLOADS[0][1], 34, "b1", "lin"), ("Temp", PAYLOADS[2][1], 35, "bus2")]))
+    out.append(("other-protocol", [("Diag", PAYLOADS[0][1], 10, "b1", "lin"), ("Speed", PAYLOADS[1][1], 10, "b1"), ("Aux", PAYLOADS[2][1], 10, "b1", "uart")]))
     # the generator's own headers included in another order (fcp_can.h ahead of the CAN wrappers)
     out.append(("order:protocols-first", [("Msg0", PAYLOADS[6][1], 1, "ab"), ("Msg1", PAYLOADS[3][1], 2, "abcd")]))
     # bus names that do not fit the four bytes of the tag: both wrappers must give the same, truncated, tag and stay in their memory
@@ -65,18 +68,21 @@ def run_schema(item):
     from fcp.reflection import get_reflection_schema
     from fcp import serde
 
-    idx, (label, bindings) = item
+    idx, (label, all_bindings) = item
     S = Stats()
     S.count("states")
     h = Hoister()
     decls = []
     structs = {}
-    for name, fields, fid, bus in bindings:
+    for b in all_bindings:
+        name, fields, fid, bus = b[:4]
         st = ("st", tuple(("f%d" % i, i, t) for i, t in enumerate(fields)))
         structs[name] = st
         decls.append(struct_decl(name, st, h))
-        decls.append(("impl", "can", name, None, (("id", fid), ("bus", bus)), ()))
+        decls.append(("impl", b[4] if len(b) > 4 else "can", name, None, (("id", fid), ("bus", bus)), ()))
     decls = h.decls + decls
+    bindings = [b[:4] for b in all_bindings if len(b) < 5 or b[4] == "can"]
+    others = [b[:4] for b in all_bindings if len(b) > 4 and b[4] != "can"]
     text = print_schema(decls)
     env = refcodec.Env(decls)
     inp0 = {"text": text}
@@ -119,8 +125,11 @@ def run_schema(item):
         ref0 = refcodec.encode(env, name, v0)
         base = {"sid": fid, "bus": pad_bus(bus), "dlc": len(ref0), "data": list(ref0) + [0] * (8 - len(ref0))}
         variants = []
-        for other in sorted(set(IDS) | {5, 2046}):
+        for other in sorted(set(IDS) | {5, 2046} | {fid | 0x800, fid | 0x8000, (fid + 0x800) & 0xFFFF} | {o[2] for o in others}):
             variants.append(("sid=%d" % other, dict(base, sid=other)))
+        for _on, _of, oid, obus in others:
+            # the (id, bus) of a binding of another protocol: a CAN frame with them is a frame like any other
+            variants.append(("sid=%d" % oid, dict(base, sid=oid, bus=pad_bus(obus))))
         for pos in range(4):
             for ch in (0, ord("a"), ord("b"), ord("c"), ord("d"), ord("x"), ord("y"), 255):
                 b2 = list(base["bus"])
